@@ -344,4 +344,106 @@ theorem mask_andThen (a b c : Sel) (h : andThen a b = some c) : compose (mask a)
   obtain ⟨m, hm, hc⟩ := andThenGo_spec a b 0 c' hc'
   rw [mask_normalize, hc, hm]; simp
 
+theorem countTrue_append (a b : List Bool) : countTrue (a ++ b) = countTrue a + countTrue b := by
+  simp [countTrue, List.filter_append]
+
+theorem countTrue_replicate (n : Nat) (v : Bool) : countTrue (List.replicate n v) = if v then n else 0 := by
+  cases v <;> simp [countTrue, List.filter_replicate]
+
+theorem clearTrues_zero (l : List Bool) : clearTrues l 0 = l := by cases l <;> rfl
+
+theorem all_false_of_countTrue_zero (Q : List Bool) (h : countTrue Q = 0) : Q = List.replicate Q.length false := by
+  induction Q with
+  | nil => rfl
+  | cons q Q ih =>
+    cases q with
+    | true => simp [countTrue] at h
+    | false =>
+      have : countTrue Q = 0 := by simpa [countTrue] using h
+      simp only [List.length_cons, List.replicate_succ, List.cons.injEq, true_and]
+      exact ih this
+
+theorem countTrue_cons_false (P : List Bool) : countTrue (false :: P) = countTrue P := by simp [countTrue]
+theorem countTrue_cons_true (P : List Bool) : countTrue (true :: P) = countTrue P + 1 := by simp [countTrue]
+
+/-- clearing `k` selected rows, when the prefix `P` holds at most `k` of them, clears the whole prefix -/
+theorem clearTrues_prefix (P X : List Bool) (k : Nat) (h : countTrue P ≤ k) :
+    clearTrues (P ++ X) k = List.replicate P.length false ++ clearTrues X (k - countTrue P) := by
+  induction P generalizing k with
+  | nil => simp [countTrue]
+  | cons x P ih =>
+    cases x with
+    | false =>
+      rw [countTrue_cons_false] at h ⊢
+      cases k with
+      | zero =>
+        have hz : countTrue P = 0 := by omega
+        rw [clearTrues_zero, hz, Nat.sub_zero, clearTrues_zero]
+        have := all_false_of_countTrue_zero P hz
+        rw [List.length_cons, List.replicate_succ, List.cons_append, List.cons_append, ← this]
+      | succ k =>
+        rw [List.cons_append, clearTrues, ih (k + 1) h, List.length_cons, List.replicate_succ, List.cons_append]
+    | true =>
+      rw [countTrue_cons_true] at h ⊢
+      cases k with
+      | zero => omega
+      | succ k =>
+        rw [List.cons_append, clearTrues, ih k (by omega), List.length_cons, List.replicate_succ, List.cons_append]
+        congr 3; omega
+
+theorem clearTrues_trues (n k : Nat) (X : List Bool) (h : k < n) :
+    clearTrues (List.replicate n true ++ X) k = List.replicate k false ++ List.replicate (n - k) true ++ X := by
+  induction k generalizing n with
+  | zero => simp [clearTrues]
+  | succ k ih =>
+    cases n with
+    | zero => omega
+    | succ n =>
+      simp only [List.replicate_succ, List.cons_append, clearTrues, List.cons.injEq, true_and]
+      rw [ih n (by omega)]; congr 2; congr 1; omega
+
+/-- the scan of `offset_selectors`, generalised over the already-consumed prefix `P` -/
+theorem offsetGo_spec (rs : Sel) (offset sel sk : Nat) (P : List Bool)
+    (hsel : countTrue P = sel) (hlen : P.length = sel + sk) (hle : sel ≤ offset) :
+    match offsetGo rs offset sel sk with
+    | none => countTrue (P ++ mask rs) ≤ offset
+    | some c => offset < countTrue (P ++ mask rs) ∧ mask c = clearTrues (P ++ mask rs) offset := by
+  induction rs generalizing sel sk P with
+  | nil => simp [offsetGo, mask, hsel, hle]
+  | cons r rs ih =>
+    by_cases hs : r.skip = true
+    · have := ih sel (sk + r.n) (P ++ List.replicate r.n false)
+        (by rw [countTrue_append, countTrue_replicate]; simp [hsel])
+        (by simp [hlen]; omega) hle
+      simp only [offsetGo, hs, if_true, mask_cons, Bool.not_true]
+      simpa [List.append_assoc] using this
+    · have hs' : r.skip = false := by simpa using hs
+      by_cases hgt : sel + r.n > offset
+      · simp only [offsetGo, hs', Bool.false_eq_true, if_false, hgt, if_true, mask_cons, Bool.not_false]
+        refine ⟨by rw [countTrue_append, countTrue_append, countTrue_replicate, hsel]; simp; omega, ?_⟩
+        rw [clearTrues_prefix P _ offset (by omega), hsel, clearTrues_trues r.n (offset - sel) _ (by omega)]
+        simp only [skipRun, select, mask_cons, Bool.not_true, Bool.not_false, hlen]
+        have e1 : List.replicate (sel + sk) false ++ (List.replicate (offset - sel) false ++ List.replicate (r.n - (offset - sel)) true)
+            = List.replicate (sk + offset) false ++ List.replicate (sel + r.n - offset) true := by
+          rw [← List.append_assoc, List.replicate_append_replicate]
+          congr 2 <;> omega
+        rw [← List.append_assoc, ← List.append_assoc, ← List.append_assoc, List.append_assoc (List.replicate (sel + sk) false), e1]
+      · have := ih (sel + r.n) sk (P ++ List.replicate r.n true)
+          (by rw [countTrue_append, countTrue_replicate]; simp [hsel])
+          (by simp [hlen]; omega) (by omega)
+        simp only [offsetGo, hs', Bool.false_eq_true, if_false, hgt, mask_cons, Bool.not_false]
+        simpa [List.append_assoc] using this
+
+/-- `RowSelection::offset(k)`: the first `k` selected rows are deselected (nothing else changes); if there
+    are at most `k` selected rows the selection becomes empty -/
+theorem mask_offset (s : Sel) (k : Nat) :
+    mask (offsetSel s k) = if countTrue (mask s) ≤ k then [] else clearTrues (mask s) k := by
+  have := offsetGo_spec s k 0 0 [] rfl rfl (Nat.zero_le _)
+  simp only [offsetSel, List.nil_append] at *
+  cases h : offsetGo s k 0 0 with
+  | none => rw [h] at this; simp only at this; simp [this, mask]
+  | some c =>
+    rw [h] at this; simp only at this
+    rw [if_neg (by omega)]; simpa using this.2
+
 end DfModel.Proofs.C24
